@@ -152,13 +152,13 @@ def _common_axis(axes, join):
     if len(axes) == 1:
         return axes[0]
 
-    # recursive call
-    ax0 = axes[0]
-    ax1 = _common_axis(axes[1:],join)
+    # recursive call (fold from the left: the accumulated axis keeps its direction)
+    ax0 = _common_axis(axes[:-1],join)
+    ax1 = axes[-1]
 
     # special cases
     # do not include None unless we have a singleton
-    if ax0[0] is None:
+    if ax0.size > 0 and ax0[0] is None:
         return ax1
     if len(ax1) == 1 and ax1[0] is None:
         return ax0
@@ -198,7 +198,9 @@ def _get_aligned_axes(arrays, join='outer', axis=None , sort=False, strict=False
             raise ValueError("align (strict=True): some arrays lack dimension {}".format(d))
 
         # common axis to reindex on
-        ax = _common_axis([arrays[i].axes[d] for i in ii], join)
+        axs = [arrays[i].axes[d] for i in ii]
+        axs = [a for a in axs if a.size > 1] + [a for a in axs if a.size <= 1] # single labels have no direction: merge them last
+        ax = _common_axis(axs, join)
 
         if sort:
             ax = ax.copy() # do not sort an input's own axis in place
